@@ -2,6 +2,7 @@ let () =
   match Array.to_list Sys.argv with
   | _ :: "arith" :: _ -> R_arith.run ()
   | _ :: "iter" :: fence :: fill :: _ -> R_iter.run (int_of_string fence) (fill = "1")
+  | _ :: "poolexec" :: "small" :: _ -> R_pool.run_exec_small ()
   | _ :: "poolexec" :: dbl :: _ -> R_pool.run_exec (dbl = "1")
   | _ :: "pool" :: _ -> R_pool.run ()
   | _ :: "stack" :: fence :: _ -> R_stack.run (int_of_string fence)
